@@ -1035,7 +1035,10 @@ impl Translator {
                         arm_labels.push((arm_label.clone(), arm.clone()));
 
                         // duplicate the scrutinee before doing a comparison
-                        self.emit(st, Instr::Duplicate);
+                        // (a scrutinee of type void occupies no stack slot)
+                        if ty != SolvedType::Void {
+                            self.emit(st, Instr::Duplicate);
+                        }
                         self.translate_pat_comparison(
                             &ty,
                             &arm.pat,
